@@ -333,6 +333,9 @@ def run(repo, res, tier):
         if kind in ("decimal", "float"):
             ok = fk == "positional" or (fk in ("str",) and cx.source_is_int(node, vexpr))
             res.check("X-NUM", "%s %s (%s) <- %s" % (path, what, tname, norm(vexpr)[:70]), ok, mod, origin, "%s %s written with %s" % (path, what, norm(vexpr)[:90]), "a %s value is written with str()/repr()-style formatting: small or large magnitudes print in exponent notation (e.g. 2e-05), which the schema type %s rejects" % (kind, tname), qualname=qn)
+        elif kind == "int":
+            # an integer-typed element: the decimal formatter writes a point (`2.0`), which the integer types reject
+            res.check("X-NUM", "%s %s (%s) <- %s" % (path, what, tname, norm(vexpr)[:70]), fk != "positional", mod, origin, "%s %s written with %s" % (path, what, norm(vexpr)[:90]), "an integer-typed value (%s) is written with the decimal formatter: the text has a decimal point, which the schema type rejects (and the reader's int() as well)" % tname, qualname=qn)
         elif base in xsd.enums:
             vals = set(xsd.enums[base])
             t = norm(vexpr)
